@@ -28,6 +28,14 @@ RECURSIVE HasFlag(_)
 HasFlag(P) == \/ \E j \in 1..Len(P.sites) : P.sites[j].active.c # "none"
               \/ \E q \in 1..Len(P.subs) : HasFlag(P.subs[q])
 
+\* some value is used through an index path (result[k], an unpacked element, parameter[k])
+RECURSIVE HasIndexing(_)
+HasIndexing(P) ==
+  LET Refs(st) == {st.args[x] : x \in 1..Len(st.args)} \cup {st.kw[x].ref : x \in 1..Len(st.kw)} \cup {st.active}
+  IN \/ \E j \in 1..Len(P.sites) : P.sites[j].unpack > 0 \/ \E r \in Refs(P.sites[j]) : Len(r.path) > 0
+     \/ \E x \in 1..Len(P.ret.refs) : Len(P.ret.refs[x].path) > 0
+     \/ \E q \in 1..Len(P.subs) : HasIndexing(P.subs[q])
+
 Clauses(S) == {p[2] : p \in {q \in S : q[1]}}
 Count(reg, cond) == IF cond THEN TLCSet(reg, TLCGet(reg) + 1) ELSE TRUE
 
@@ -65,6 +73,8 @@ Bad(W) ==
        <<W.built /\ exp.argerr /\ ~W.raised, "C01.argerror">>,
        <<W.built /\ inEq /\ wrongVal, "C01.value">>,
        <<W.built /\ inEq /\ wrongVal /\ HasSub(P), "C20.value">>,
+       \* C02: what a node receives is its dependency's return value after the indexing the user wrote
+       <<W.built /\ inEq /\ wrongVal /\ HasIndexing(P), "C02.value-through-indexing">>,
        <<W.built /\ inEq /\ wrongVal /\ HasFlag(P), "C10.value">>,
        <<W.built /\ inEq /\ keptSetup, "C10.deactivated-setup-output">>,
        <<W.built /\ inEq /\ idxNone, "C10.deactivated-indexed-output">>,
@@ -100,15 +110,16 @@ Check ==
      /\ Count(8, ~exp.err /\ W.conc = 2)
      /\ Count(9, W.loop = 1)
      /\ Count(10, ~exp.err /\ W.conc = 3)
+     /\ Count(12, ~exp.err /\ HasIndexing(P))
      /\ Count(11, ~exp.err /\ \E q \in exp.exec : Len(q) > 1 /\ LET RECURSIVE IsSetupPath(_, _)
                                                                     IsSetupPath(Q, pth) == IF Len(pth) = 1 THEN Q.sites[pth[1]].setup
                                                                                            ELSE IsSetupPath(Q.subs[Q.sites[pth[1]].sub], Tail(pth))
                                                                 IN IsSetupPath(P, q))
      /\ (b = {} \/ PrintT("MISMATCH " \o ToJson([o |-> o, c |-> b, expval |-> exp.val, expexec |-> exp.exec])))
 
-ASSUME \A reg \in 1..11 : TLCSet(reg, 0)
+ASSUME \A reg \in 1..12 : TLCSet(reg, 0)
 Counts == PrintT("COUNTS " \o ToJson([rows |-> TLCGet(1), ineq |-> TLCGet(2), nested |-> TLCGet(3),
                                        flagged |-> TLCGet(4), async |-> TLCGet(5), argerr |-> TLCGet(6),
                                        threads |-> TLCGet(7), gathered |-> TLCGet(8), loopserved |-> TLCGet(9),
-                                       inturn |-> TLCGet(10), nestedsetup |-> TLCGet(11)]))
+                                       inturn |-> TLCGet(10), nestedsetup |-> TLCGet(11), indexed |-> TLCGet(12)]))
 =============================================================================
